@@ -13,7 +13,7 @@ RULE = ("cases = (a) every PD code of yui-link/resources/links selected by the t
         "(c) split unions of two pool diagrams; (d) random valid but mostly non-planar codes (random perfect matchings of "
         "the 4n slots, all four crossing types); (e) a malformed stream (labels occurring 1, 3, 4 times, damaged valid "
         "codes) where a non-terminating traversal is reported as DIVERGE by both sides. A case is non-trivial when the "
-        "diagram has at least one crossing and the implementation did not reject it; distinct = distinct case lines")
+        "diagram has at least one crossing and the implementation did not reject it; distinct = distinct case lines; `bgrp` = Braid::inv, the product of two braids in both call forms (panic when the strand counts differ) and the closure of w * w^-1")
 ASSUME = ["planarity of a PD code is not modelled (the code does not check it either)",
           "Link::load is exercised on the corpus (must equal the generator-side parse), not proved",
           "edge labels are unbounded naturals in the model (usize in the code; no arithmetic is done on labels)",
